@@ -74,7 +74,17 @@ def one_call(case, d):
     out["func"] = None
     out["n_in"] = f.n_in()
     out["shapes"] = [list(f.size_out(i)) for i in range(f.n_out())]
-    values = []
+    # the model's delay_arguments attribute (for a CachedModel rebuilt by load_model) as a function of the same inputs
+    g = None
+    if case.get("options", {}).get("cache") and m.delay_arguments:
+        try:
+            import casadi as ca
+            sym = [m.time] + [ca.veccat(*[v.symbol for v in grp]) for grp in
+                              (m.states, m.der_states, m.alg_states, m.inputs, m.constants, m.parameters)]
+            g = ca.Function("attr", sym, [ca.MX(x) for a in m.delay_arguments for x in (a.expr, a.duration)])
+        except Exception as e:  # noqa
+            out["attr_exc"] = "%s: %s" % (type(e).__name__, str(e)[-200:])
+    values, values2 = [], []
     for pt in case["points"]:
         def look(name, n, pt=pt):
             if name.startswith("der(") and name.endswith(")"):
@@ -106,7 +116,16 @@ def one_call(case, d):
         elif f.n_out() == 1:
             res = [res]
         values.append([[_num(x) for x in r.full().flatten(order="F")] for r in res])
+        if g is not None:
+            try:
+                r2 = g(*args)
+                r2 = [r2] if g.n_out() == 1 else list(r2)
+                values2.append([[_num(x) for x in r.full().flatten(order="F")] for r in r2])
+            except Exception as e:  # noqa
+                out["attr_exc"] = "%s: %s" % (type(e).__name__, str(e)[-200:])
     out["values"] = values
+    if g is not None and "attr_exc" not in out:
+        out["attr_values"] = values2
     return out
 
 
